@@ -20,6 +20,7 @@ REQUIRED_OBS = ["archives_listed", "members_checked", "getinfo_calls", "archivei
 RULE = ("archives written by py7zr (every chain, header mode, +-password, 1..2 sessions, trees with directories/symlinks/empty files), by the "
         "reference writer (layout features) and fixtures; opened by path. Oracle: getnames==namelist==list==files (stored order per reference "
         "reader); list().uncompressed == len(extracted bytes); crc32 == CRC32(extracted bytes); is_directory == extraction creates a directory; "
+        "(archives whose coders nobody here can decode, e.g. BCJ2 fixtures: names, blocks, solid and size are still compared with the parsed header) "
         "getinfo(name), getinfo(name+'/') find every listed name, KeyError otherwise; archiveinfo size/blocks/solid/method_names/uncompressed vs "
         "reference reader; needs_password == (AES coder present or password supplied). Archives py7zr cannot open/extract are C06's business and "
         "are skipped here. Cell = (origin, chain/features, header, aes, kinds).")
@@ -75,6 +76,47 @@ def cases(rng, tier):
     return out
 
 
+def _check_structure_only(path, data, password, supplied_password, viol, obs):
+    """Archives whose coders neither py7zr nor the reference reader can decode (BCJ2 ...): the statements a listing makes about
+    structure (names, folder count, solid flag, coder names) are still checkable against the parsed header."""
+    import py7zr
+
+    try:
+        arc = R.parse(data, password, decode=False, strict_tiling=False)
+    except Exception:
+        return
+    try:
+        z = py7zr.SevenZipFile(path, "r", password=supplied_password)
+    except Exception:
+        return
+    try:
+        obs["structure_only_archives"] = obs.get("structure_only_archives", 0) + 1
+        ref_names = [(m.name or "").replace("\\", "/") for m in arc.members]
+        gn = z.getnames()
+        if gn != ref_names and all(ref_names):
+            viol.append({"key": "names-not-in-stored-order", "what": "getnames %r, stored order %r" % (gn[:6], ref_names[:6])})
+        st = arc.streams
+        try:
+            ai = z.archiveinfo()
+        except Exception as e:
+            viol.append({"key": "archiveinfo-raises/%s/undecodable" % type(e).__name__, "what": "archiveinfo() raised %s" % pz.exc_sig(e)})
+            return
+        obs["archiveinfo_checked"] = obs.get("archiveinfo_checked", 0) + 1
+        nf = len(st.folders) if st else 0
+        if ai.blocks != nf:
+            viol.append({"key": "archiveinfo-blocks", "what": "blocks=%r, archive has %d folders (packed streams: %d)" % (ai.blocks, nf, len(st.pack_sizes) if st else 0)})
+        solid = bool(st and any(f.num_substreams > 1 for f in st.folders))
+        if bool(ai.solid) != solid:
+            viol.append({"key": "archiveinfo-solid", "what": "solid=%r, folders hold %r substreams" % (ai.solid, [f.num_substreams for f in st.folders] if st else [])})
+        if ai.size != len(data):
+            viol.append({"key": "archiveinfo-size", "what": "archiveinfo().size=%r, file has %d bytes" % (ai.size, len(data))})
+    finally:
+        try:
+            z.close()
+        except Exception:
+            pass
+
+
 def _check_archive(path, password, supplied_password, viol, obs, d, origin):
     """All listing-vs-truth comparisons on one archive file."""
     import py7zr
@@ -85,6 +127,7 @@ def _check_archive(path, password, supplied_password, viol, obs, d, origin):
         arc = R.parse(data, password, strict_tiling=False)
     except R.RefUnsupported:
         obs["skipped_unsupported"] = obs.get("skipped_unsupported", 0) + 1
+        _check_structure_only(path, data, password, supplied_password, viol, obs)
         return "skip"
     except Exception as e:
         obs["skipped_ref_cannot_read"] = obs.get("skipped_ref_cannot_read", 0) + 1
@@ -295,8 +338,8 @@ def run_case(case):
                         viol.append({"key": "needs_password-ignores-supplied", "what": "needs_password() is False although a password was supplied"})
             except Exception:
                 pass
-    if st == "skip":
-        return K.result("held", cell="skip|" + cell.split("|")[0], nontrivial=False, obs=obs, sample=sample)
+    if st == "skip" and not viol:
+        return K.result("held", cell=("structure-only|" if obs.get("structure_only_archives") else "skip|") + cell.split("|")[0], nontrivial=bool(obs.get("structure_only_archives")), obs=obs, sample=sample)
     if viol:
         seen = {}
         for v in viol:
